@@ -9,6 +9,9 @@ BANNED_READ = {"std::io::Read::read", "std::io::Read::read_vectored", "std::io::
 
 def run(ctx):
     _run(ctx)
+    ctx.delegate("C03", ["C03.recsize", "C03.dispatch"], "C13.complete",
+                 "a complete record is never refused for its length or kind: the length tests made before decoding admit every "
+                 "record, the null shape's 2 words included", floor=5)
     ctx.delegate("C03", ["C03.layout", "C03.size"], "C13.layout",
                  "a record is returned only when all the bytes its declared size covers were read: both legal layouts are decoded in "
                  "full, whatever the counts", floor=30)
